@@ -13,7 +13,7 @@ pub fn property() -> Property {
     Property {
         id: "C04",
         level: "exploration",
-        rule: "Generator-built response heads (status 100..999 exhaustively; reason phrases absent/multi-word/UTF-8/Latin-1 and other non-UTF-8 obs-text/long; Content-Encoding (gzip, deflate, br, ...) and Content-Length fields that the body pipeline consumes; version tokens HTTP/1.1, HTTP/1.0, ICY, arbitrary; header lists of 0..max_headers fields with names over the RFC token alphabet, values over visible ASCII + inner spaces + obs-text + empty, surrounding blanks, adjacent and interleaved duplicates, bare-LF continuations, lines up to 16 000 bytes, blocks > 8 KiB, exactly max_headers fields for max_headers in {1,2,7,100,1000}; Transfer-Encoding: chunked inserted at a random position) served under all 2^(n-1) segmentations of a 14-byte head (exhaustive), bytewise, every single split, or random segments. Oracle: status() == code sent; for every name the get_all() sequence equals the generator's values in wire order after (trim spaces, LF -> space); total count equal; Transfer-Encoding absent. Non-trivial: >= 1 header field or >= 2 segments; distinct = hash(head bytes, segmentation, max_headers).",
+        rule: "Generator-built response heads (status 100..999 exhaustively; reason phrases absent/multi-word/UTF-8/Latin-1 and other non-UTF-8 obs-text/long; Content-Encoding (gzip, deflate, br, ...) and Content-Length fields that the body pipeline consumes; version tokens HTTP/1.1, HTTP/1.0, ICY, arbitrary; header lists of 0..max_headers fields with names over the RFC token alphabet, values over visible ASCII + inner spaces + obs-text + empty, surrounding blanks, adjacent and interleaved duplicates, bare-LF continuations, lines up to 16 000 bytes, blocks > 8 KiB, exactly max_headers fields for max_headers in {1,2,7,100,1000}, and heads within the boundary limits {0, 24 577, 100 000, u32::MAX, usize::MAX}; Transfer-Encoding: chunked inserted at a random position) served under all 2^(n-1) segmentations of a 14-byte head (exhaustive), bytewise, every single split, or random segments. Oracle: status() == code sent; for every name the get_all() sequence equals the generator's values in wire order after (trim spaces, LF -> space); total count equal; Transfer-Encoding absent. Non-trivial: >= 1 header field or >= 2 segments; distinct = hash(head bytes, segmentation, max_headers).",
         assumptions: &["only syntactically valid heads are generated (invalid names/values belong to C05)", "HTAB padding and blanks before the colon are not generated (the statement speaks of spaces)"],
         min_nontrivial: |t| t.pick(5_000, 100_000),
         gens,
@@ -375,17 +375,30 @@ fn run_random(ctx: &mut Ctx, rng: &mut Rng, _index: u64) {
 fn run_limits(ctx: &mut Ctx, rng: &mut Rng, _index: u64) {
     // exactly max_headers fields (Transfer-Encoding counts while parsing) must be accepted
     let max = if crate::framework::small_mode() { *rng.pick(&[1usize, 2, 7, 30]) } else { *rng.pick(&[1usize, 2, 7, 100, 1000]) };
+    // boundary values of the limit itself: 0 (a head without fields is within it) and "no limit"
+    // spellings far above anything a server sends - a head within the limit is accepted
+    let huge: Option<usize> = if rng.chance(1, 4) { Some(*rng.pick(&[0usize, 24_577, 100_000, u32::MAX as usize, usize::MAX])) } else { None };
+    let nfields = match huge {
+        Some(0) => 0,
+        Some(_) => rng.range(0, 40),
+        None => max,
+    };
+    if huge.is_some() {
+        ctx.count("boundary_values_of_max_headers", 1);
+    }
     let mut fields: Vec<Field> = Vec::new();
-    for i in 0..max {
+    for i in 0..nfields {
         let name = if rng.chance(1, 4) && i > 0 { fields[rng.usize_below(i)].name.clone() } else { random_name(rng) };
         fields.push(random_field(rng, ctx, name, 30));
     }
     let chunked = rng.chance(1, 3);
+    let chunked = chunked && !fields.is_empty();
     if chunked {
         let at = rng.usize_below(fields.len());
         fields[at] = Field { name: "Transfer-Encoding".into(), raw_value: b" chunked".to_vec() };
     }
     let head = Head { version: "HTTP/1.1".into(), code: 200, reason: Some(b"OK".to_vec()), fields, chunked };
+    let max = huge.unwrap_or(max);
     ctx.count("exactly_max_headers_cases", 1);
     let seg = if rng.bool() { Segmentation::Whole } else { respgen::random_segmentation(rng, head.wire().len(), &[]) };
     check_head(ctx, &head, &seg, Some(max), "limits");
